@@ -586,7 +586,13 @@ func (g *G) WrapOf(name string, c *B, k Kind) *B {
 		b.Err, b.Text = &UserPrefix{m, e}, m+": "+c.Text
 		b.Unsafe = append(append([]string{}, c.Unsafe...), m)
 	case WUserGlue:
+		// at least two bytes may be drawn: a separator has something in front of it
+		saved := g.Max
+		if g.Max < 2 {
+			g.Max = 2
+		}
 		m := g.StrU(name + ".m")
+		g.Max = saved
 		b.Err, b.Text = &UserGlue{m, e}, m+c.Text
 		b.Unsafe = append(append([]string{}, c.Unsafe...), m)
 	case WUserFull:
